@@ -94,6 +94,20 @@ func buildFamily(x *Executor, seed uint64, idx int) (*family, int, error) {
 		if r.Intn(4) == 0 {
 			gv.SplitFile = []string{"actions.go", "y_actions.go"}[r.Intn(2)]
 		}
+		if gv.MixedAny {
+			// make sure the variant has something to mix: a rule with two or
+			// more action methods gets the Go type `any`
+			for _, rr := range cand.Rules {
+				sigs := map[int]bool{}
+				for _, pp := range rr.Prods {
+					sigs[len(pp.Terms)] = true
+				}
+				if len(sigs) >= 2 {
+					rr.Ret = 6
+					break
+				}
+			}
+		}
 		// cheap screen: front-end only (packages.Load fails by injection)
 		dir := filepath.Join(x.T.WorldRoot(), fmt.Sprintf("screen-%d-%d", idx, attempt))
 		v := makeVariant("screen", cand, gv, "")
